@@ -121,3 +121,14 @@ Print Assumptions decode_usable_cell_refuted.
 Theorem decode_usable_cell_valid_ids : forall id, 0 <= id < 6 * 2 ^ 61 -> cell_rect_bound_axes id <> Panic.
 Proof. exact cell_rect_bound_axes_valid. Qed.
 Print Assumptions decode_usable_cell_valid_ids.
+
+(** FINDING (unchanged tree): the full polygon (also the golden encoding 040001010B000100 of
+    encode_test.go) has no ShapeIndex; ContainsPoint, ContainsCell and IntersectsCell dereference it *)
+Theorem decode_usable_full_polygon_refuted :
+  exists bs ls, bytes_ok bs /\ decode_polygon bs = Ok (DCompressed ls) /\ polygon_query_entry ls = Panic.
+Proof. exact C15_Total.decode_usable_full_polygon_refuted. Qed.
+Print Assumptions decode_usable_full_polygon_refuted.
+
+Theorem decode_usable_polygon_not_full : forall ls, cloops_full ls = false -> polygon_query_entry ls = Ok tt.
+Proof. exact polygon_query_entry_not_full. Qed.
+Print Assumptions decode_usable_polygon_not_full.
